@@ -218,6 +218,9 @@ def assign_failures(obs, failures, w):
             for o in obs:
                 if o["id"] == oid:
                     target = o
+                    # the hint may carry labels of further properties: the obligation serves them too
+                    o["labels"] = list(o["labels"]) + [l for l in f["labels"] if l not in o["labels"]]
+                    o["props"] = sorted(set(o["props"]) | {l.split(".")[0] for l in f["labels"]})
                     break
             if target is None:
                 target = {"id": oid, "fn": it["fn"], "item": f["item"], "labels": list(f["labels"]), "kind": "hint",
